@@ -151,8 +151,9 @@ overflow-checks = true
         arms = []
         for n in names:
             m = self.modules[n]
+            # `#[path]` (not include!) so that grammars may carry `#![..]` inner attributes
             mods.append("#[allow(unused_imports, unused_variables, unused_mut, unused_parens, dead_code, non_snake_case, non_camel_case_types, clippy::all)]\n"
-                        "#[rustfmt::skip]\nmod %s { include!(\"%s.rs\"); }\n" % (n, n))
+                        "#[rustfmt::skip]\n#[path = \"%s.rs\"]\nmod %s;\n" % (n, n))
             for s in m.starts:
                 if m.kind == "extern":
                     arms.append('        ("%s", "%s") => Some(match shape {\n'
